@@ -213,6 +213,19 @@ def fixed_cases(tier):
             "via_creator": False,
         }
     )
+    # custom labels on a partial chart in which job 1 has no bar yet
+    cases.append(
+        {
+            "kind": "chart",
+            "inst": small,
+            "history": [[2, 0], [0, 0]],
+            "cut": 2,
+            "xlim_extra": None,
+            "cmap": "tab10",
+            "labels": True,
+            "via_creator": False,
+        }
+    )
     # more than 10 jobs (two-digit legend labels) through the default plotter,
     # and a chart whose legend has 17 entries
     twelve = {
